@@ -501,6 +501,17 @@ def hybrid_programs(rng: random.Random, n: int):
     T("se;boolif", "{ int32_t a = 0; if (({ a = RsV; a > 0; })) { ReV = a; } RddV = a; }", a32, vk="se;bool")
     T("se;boolcond", "{ int32_t a = 0; ReV = ({ a = RsV; a > RtV; }) ? 3 : 4; RddV = a; }", a32, vk="se;bool")
     T("se;boolop", "{ int32_t a = 0; ReV = ({ a = RsV; a > 0; }) && RtV; RddV = !({ a = a + 1; a == 5; }) + a; }", a32, vk="se;bool")
+    # expression statements whose VALUE is dropped but which contain an operation with an effect
+    T("vless;post", "{ int32_t a = RsV; RtV + a++; ReV = a; }", a32, vk="vless")
+    T("vless;cast", "{ int32_t a = RsV; (int64_t) a--; ReV = a; }", a32, vk="vless")
+    T("vless;cmp", "{ int32_t a = RsV; a++ == 3; ReV = a; RddV = RsV; }", a32, vk="vless")
+    T("vless;reg", "{ RtV + RxV++; ReV = RxV; }", vk="vless")
+    T("vless;bump", "{ bump(bundle, RxV, 1) + 1; ReV = RxV; }", (), [bs], bc, "vless")
+    T("vless;block", "{ int32_t a = RsV; { a++ + 1; } if (RtV) { 2 * a--; } ReV = a; }", a32, vk="vless")
+    # a folded-away arm that is an operation whose operand is another such operation (rejected or translated, never half-built)
+    T("deadnest;call", "{ ReV = 0 ? clz32(clo32(RsV)) : RtV; }", vk="deadnest")
+    T("deadnest;call2", "{ ReV = 1 ? RtV : fbrev(clz32(RsV) + clo32(RtV)); RddV = clz32(RsV); }", vk="deadnest")
+    T("deadnest;post", "{ int32_t a = RsV; ReV = 0 ? clz32(a++) : RtV; RddV = a; }", a32, vk="deadnest")
     # calls: return value, unused value, nested, in conditions / arguments / arms
     T("call;value", "{ ReV = clz32(RsV) + 1; }")
     T("call;unused", "{ ReV = RsV; clz32(RsV); RddV = ReV; }")
@@ -665,6 +676,8 @@ def fold_programs(rng: random.Random, n: int):
     # unary operator on a folded binary result (the literal that is finally spelled must fit its type)
     firsts += [f"({u}({a} {op} {b}))" for u in ("-", "~") for op, a, b in (("-", "256ULL", "0xffffULL"), ("-", "0", "1U"), ("*", "2U", "0x80000000U"), ("+", "0xffffffffffffffffULL", "2"),
                                                                          ("-", "1LL", "0x7fffffffffffffffLL"), ("+", "0x7fffffff", "1U"), ("-", "5", "7"))]
+    # unary operators on a folded comparison (its value is the int 0 / 1)
+    firsts += ["(~(1 == 1))", "(+(2 > 1))", "(-(1 < 2))", "(~(1 == 2))", "(-(sizeof(RsV) == 4))", "(!(1 == 1))", "(~(0x80000000 > 0))", "(-(-1 < 0U))"]
     for f in firsts:
         for k, tl in enumerate(tails):
             T(f"fold2;{f};{k}", f"{{ RddV = {f} {tl}; }}", vk="fold2")
@@ -679,6 +692,7 @@ def fold_programs(rng: random.Random, n: int):
     # (3) constant ?: ; sizeof of every operand type
     for c in ("1", "0", "(2 > 1)", "(0x80000000 > 0)", "(1 ? 0 : 1)", "sizeof(RsV) == 4"):
         T(f"cond;{c}", f"{{ RddV = {c} ? RuuV : RvvV; ReV = {c} ? 3 : RsV; }}", vk="cond")
+    T("sizeof;bool", "{ ReV = sizeof(RsV > RtV) + sizeof(!RsV) * 16 + sizeof(RsV && RtV) * 256 + sizeof(1 == 1) * 4096 + sizeof(!(2 > 1)) * 65536; RddV = sizeof((RsV > 1) + 1) + sizeof(RuuV == RvvV) * 16; }", vk="sizeof")
     for t in TYPES:
         T(f"sizeof;{t}", f"{{ {t} q = ({t}) RsV; ReV = sizeof(q) + sizeof(RsV) * 16 + sizeof(RuuV) * 256 + sizeof(PwV) * 4096; RddV = sizeof(siV); }}", [("q", t)], vk="sizeof")
     # (4) division: exact results may be folded or rejected, inexact and zero division must be rejected
